@@ -74,8 +74,9 @@ type Op struct {
 	SL      int      `json:"sl,omitempty"`   // signature length override (same coding)
 	Pt      int      `json:"pt,omitempty"`   // X25519 point kind
 	Alias   int      `json:"alias,omitempty"`
-	Other   int      `json:"other,omitempty"` // Equal: what to compare with; Sign: 1 = foreign seed half
-	Sib     int      `json:"sib,omitempty"`   // pool: 1 + index of the op this one is a sibling of
+	Other   int      `json:"other,omitempty"`  // Equal: what to compare with; Sign: 1 = foreign seed half
+	Sib     int      `json:"sib,omitempty"`    // pool: 1 + index of the op this one is a sibling of
+	Follow  bool     `json:"follow,omitempty"` // VerifyBatch: take over variant and context LENGTH of the previous batch call of this process, with a different context; "pctx" entries are signed under the previous call's context
 }
 
 func shapeLen(code, def int) int {
@@ -174,8 +175,15 @@ func undecodable(seed uint64) []byte {
 
 // buildEntries materialises the entries of an op. Pure function of
 // (op seed, option set, entry list).
+// Set by prepare around buildEntries for ops that follow the previous batch
+// call (sequential engines only).
+var followCtx, followPrevCtx []byte
+
 func buildEntries(opSeed uint64, o Opt, es []Entry) []triple {
 	ctx := o.ctxBytes(opSeed)
+	if followCtx != nil {
+		ctx = followCtx
+	}
 	signCtx := ctx
 	if len(signCtx) > 255 {
 		signCtx = signCtx[:255]
@@ -312,6 +320,15 @@ func buildEntries(opSeed uint64, o Opt, es []Entry) []triple {
 			hh.Write(t.msg)
 			k := new(big.Int).Mod(leToInt(hh.Sum(nil)), bcL)
 			t.sig = append(append([]byte{}, R...), intToLE32(new(big.Int).Mod(new(big.Int).Mul(k, a), bcL))...)
+		case "pctx":
+			// signed under the context the PREVIOUS batch call of this process
+			// used (same length as the current one, different bytes): valid
+			// only for a verifier whose idea of the context is stale
+			if followPrevCtx != nil {
+				t.sig = stdSign(seed, t.msg, o, followPrevCtx)
+			} else {
+				flipBit(t.sig[32:], 3)
+			}
 		case "pfx":
 			// an honest signature over a proper PREFIX of the message
 			k := []int{32, 64, 96, 128, 160, 192, 224, 256, 1, 111}[e.P%10]
@@ -433,6 +450,10 @@ var loworderX25519 = [][]byte{
 	{0xec, 0xff, 0xff, 0xff, 0xff, 0xff, 0xff, 0xff, 0xff, 0xff, 0xff, 0xff, 0xff, 0xff, 0xff, 0xff, 0xff, 0xff, 0xff, 0xff, 0xff, 0xff, 0xff, 0xff, 0xff, 0xff, 0xff, 0xff, 0xff, 0xff, 0xff, 0x7f},
 }
 
+// the context and variant of the previous VerifyBatch call of this process
+var lastBatchCtx []byte
+var lastBatchHash int
+
 // stabilityRing (sequential engines): the last few outcomes, re-examined after
 // every call.
 var stabilityRing []*Outcome
@@ -512,7 +533,26 @@ func prepare(op *Op) *Prepared {
 			p.pub, p.msg, p.sig = g.Buf(t.key), g.Buf(t.msg), g.Buf(t.sig)
 		}
 	case "VerifyBatch":
+		followCtx, followPrevCtx = nil, nil
+		if op.Follow && reuseOptions && len(lastBatchCtx) > 0 && len(lastBatchCtx) <= 255 && lastBatchHash <= 1 {
+			o.Hash = lastBatchHash
+			nc := seededBytes(len(lastBatchCtx), op.Seed, lbl("follow-ctx"))
+			for i := range nc {
+				if nc[i] == 0 {
+					nc[i] = 1
+				}
+			}
+			if string(nc) == string(lastBatchCtx) {
+				nc[0] ^= 0x55
+			}
+			followCtx, followPrevCtx = nc, lastBatchCtx
+			p.opts.Hash, p.opts.Context = o.hash(), string(nc)
+		}
 		ts := buildEntries(op.Seed, o, op.Entries)
+		followCtx, followPrevCtx = nil, nil
+		if reuseOptions {
+			lastBatchCtx, lastBatchHash = []byte(p.opts.Context), o.Hash
+		}
 		p.keys = make([]ed25519.PublicKey, len(ts))
 		p.msgs = make([][]byte, len(ts))
 		p.sigs = make([][]byte, len(ts))
